@@ -208,6 +208,10 @@ trait Cont {
     fn has_fast_get(&self) -> bool {
         false
     }
+    /// bits per element handed to fast_get
+    fn bits(&self) -> usize {
+        0
+    }
     /// the static fast_get over the container's raw data
     fn fast_get(&self, _i: usize) -> Option<Rd> {
         None
@@ -335,6 +339,9 @@ impl Cont for M0 {
         let [a, b] = self.v.get2(i);
         Some(Rd2::Val(self.min.plus(a), self.min.plus(b)))
     }
+    fn bits(&self) -> usize {
+        self.v.uintbits()
+    }
     fn fast_get(&self, i: usize) -> Option<Rd> {
         Some(match UintVecMin0::fast_get(self.v.data(), self.v.uintbits(), self.v.uintmask(), i) {
             Ok(w) => Rd::Val(self.min.plus(w)),
@@ -375,6 +382,9 @@ impl Cont for ZI {
     fn get2(&self, i: usize) -> Option<Rd2> {
         let [a, b] = self.v.get2(i);
         Some(Rd2::Val(a.to_string(), b.to_string()))
+    }
+    fn bits(&self) -> usize {
+        self.v.uintbits()
     }
     fn fast_get(&self, i: usize) -> Option<Rd> {
         Some(match ZipIntVec::fast_get(self.v.data(), self.v.uintbits(), self.v.uintmask(), self.v.min_val(), i) {
@@ -633,8 +643,26 @@ fn empty(name: &str) -> Option<Box<dyn Cont>> {
 
 // ---------------------------------------------------------------- events
 
+/// a message with every run of digits replaced by N (so that TLC can compare it for equality)
+fn msgk(m: &str) -> String {
+    let mut out = String::new();
+    let mut in_num = false;
+    for ch in m.chars() {
+        if ch.is_ascii_digit() {
+            if !in_num {
+                out.push('N');
+            }
+            in_num = true;
+        } else {
+            in_num = false;
+            out.push(ch);
+        }
+    }
+    out
+}
+
 fn panic_ev(inop: &str, msg: &str, extra: Value) -> Value {
-    let mut e = json!({"op":"panic","in":inop,"msg":msg});
+    let mut e = json!({"op":"panic","in":inop,"msg":msg,"msgk":msgk(msg)});
     if let (Some(o), Some(x)) = (e.as_object_mut(), extra.as_object()) {
         for (k, v) in x {
             o.insert(k.clone(), v.clone());
@@ -696,7 +724,7 @@ fn ev_readblocks(c: &dyn Cont) -> Option<Value> {
         for b in 0..nb {
             match c.get_block(b)? {
                 Ok(v) => out.extend(v.into_iter().map(Value::String)),
-                Err(_) => return Some(json!({"op":"get_block","b":idx(b),"bs":bs,"ok":false,"out":[]})),
+                Err(_) => return Some(json!({"op":"probes","g":[{"k":"get_block","i":idx(b),"bs":bs,"ok":false,"out":[]}]})),
             }
         }
         Some(json!({"op":"readblocks","bs":bs,"nb":nb,"out":out}))
@@ -709,21 +737,27 @@ fn ev_readblocks(c: &dyn Cont) -> Option<Value> {
 fn ev_get(c: &dyn Cont, i: usize, via: &str) -> Value {
     let r = guard(|| if via == "fast_get" { c.fast_get(i).unwrap_or(Rd::None) } else { c.get(i) });
     let mut e = match r {
-        Ok(Rd::Val(v)) => json!({"op":"get","i":idx(i),"r":[v],"how":"value"}),
-        Ok(Rd::None) => json!({"op":"get","i":idx(i),"r":[],"how":"none"}),
-        Ok(Rd::Err) => json!({"op":"get","i":idx(i),"r":[],"how":"err"}),
-        Err(m) => json!({"op":"get","i":idx(i),"r":[],"how":"panic","msg":m}),
+        Ok(Rd::Val(v)) => json!({"i":idx(i),"r":[v],"how":"value"}),
+        Ok(Rd::None) => json!({"i":idx(i),"r":[],"how":"none"}),
+        Ok(Rd::Err) => json!({"i":idx(i),"r":[],"how":"err"}),
+        Err(m) => json!({"i":idx(i),"r":[],"how":"panic","msg":m}),
     };
-    e["via"] = json!(via);
+    e["k"] = json!(via);
+    if via == "fast_get" {
+        e["bits"] = json!(c.bits());
+    }
     e
 }
 fn ev_get2(c: &dyn Cont, i: usize) -> Option<Value> {
+    if !c.has_get2() {
+        return None;
+    }
     let r = guard(|| c.get2(i));
     Some(match r {
         Ok(None) => return None,
-        Ok(Some(Rd2::Val(a, b))) => json!({"op":"get2","i":idx(i),"r":[[a, b]],"how":"value"}),
-        Ok(Some(Rd2::Err)) => json!({"op":"get2","i":idx(i),"r":[],"how":"err"}),
-        Err(m) => json!({"op":"get2","i":idx(i),"r":[],"how":"panic","msg":m}),
+        Ok(Some(Rd2::Val(a, b))) => json!({"k":"get2","i":idx(i),"r":[[a, b]],"how":"value"}),
+        Ok(Some(Rd2::Err)) => json!({"k":"get2","i":idx(i),"r":[],"how":"err"}),
+        Err(m) => json!({"k":"get2","i":idx(i),"r":[],"how":"panic","msg":m}),
     })
 }
 fn ev_get_block(c: &dyn Cont, b: usize) -> Option<Value> {
@@ -731,9 +765,9 @@ fn ev_get_block(c: &dyn Cont, b: usize) -> Option<Value> {
     let r = guard(|| c.get_block(b));
     Some(match r {
         Ok(None) => return None,
-        Ok(Some(Ok(v))) => json!({"op":"get_block","b":idx(b),"bs":bs,"ok":true,"out":v}),
-        Ok(Some(Err(_))) => json!({"op":"get_block","b":idx(b),"bs":bs,"ok":false,"out":[]}),
-        Err(m) => panic_ev("get_block", &m, json!({"b":idx(b)})),
+        Ok(Some(Ok(v))) => json!({"k":"get_block","i":idx(b),"bs":bs,"ok":true,"out":v}),
+        Ok(Some(Err(_))) => json!({"k":"get_block","i":idx(b),"bs":bs,"ok":false,"out":[]}),
+        Err(m) => json!({"k":"get_block","i":idx(b),"bs":bs,"ok":false,"out":[],"how":"panic","msg":m}),
     })
 }
 
@@ -762,9 +796,6 @@ fn put(tr: &mut Tracer, st: &mut Stats, e: Value) -> bool {
     let p = e["op"] == "panic";
     if p {
         st.panics += 1;
-    }
-    if e["how"] == "panic" {
-        st.oob_by_panic += 1;
     }
     tr.ev(e);
     st.events += 1;
@@ -800,20 +831,15 @@ fn read_all(tr: &mut Tracer, st: &mut Stats, c: &dyn Cont, n_in: usize, r: &mut 
         }
     }
     put(tr, st, json!({"op":"len","n":n}));
+    let mut g: Vec<Value> = vec![];
     // a few single in-range reads
     if n > 0 {
         for i in [0, n - 1, r.below(n as u64) as usize] {
-            if put(tr, st, ev_get(c, i, "get")) {
-                return false;
-            }
-            if let Some(e) = ev_get2(c, i) {
-                put(tr, st, e);
-            }
+            g.push(ev_get(c, i, "get"));
+            g.extend(ev_get2(c, i));
         }
         if n >= 2 {
-            if let Some(e) = ev_get2(c, n - 2) {
-                put(tr, st, e);
-            }
+            g.extend(ev_get2(c, n - 2));
         }
     }
     // out-of-range probes: every one must be refused.  (get2 at the two largest indices of the
@@ -823,36 +849,79 @@ fn read_all(tr: &mut Tracer, st: &mut Stats, c: &dyn Cont, n_in: usize, r: &mut 
     probes.extend(big.iter().map(|&b| b.max(n + 7)));
     for &i in &probes {
         st.oob_probes += 1;
-        put(tr, st, ev_get(c, i, "get"));
+        g.push(ev_get(c, i, "get"));
         let wraps = i >= usize::MAX - 1 && c.has_fast_get();
         if !wraps {
-            if let Some(e) = ev_get2(c, i) {
-                put(tr, st, e);
-            }
+            g.extend(ev_get2(c, i));
         }
     }
-    if n > 0 {
-        if let Some(e) = ev_get2(c, n - 1) {
-            st.oob_probes += 1;
-            put(tr, st, e);
-        }
+    if n > 0 && c.has_get2() {
+        st.oob_probes += 1;
+        g.extend(ev_get2(c, n - 1));
     }
-    // fast_get knows only the byte buffer (which is padded): probed far outside only
-    if c.has_fast_get() {
-        for &i in &[n + (1 << 20), 1usize << 40, 1 << 61, 1 << 62, 1 << 63, usize::MAX] {
+    // fast_get knows only the (padded) byte buffer: judged inside the vector and far outside
+    if c.has_fast_get() && guard(|| c.bits()).map_or(false, |b| b <= 58) {
+        for &i in &[n, n + (1 << 20), 1usize << 40, 1 << 61, 1 << 62, 1 << 63, usize::MAX] {
             st.oob_probes += 1;
-            put(tr, st, ev_get(c, i, "fast_get"));
+            g.push(ev_get(c, i, "fast_get"));
         }
     }
     if let Some((_, nb)) = c.blocks() {
         for b in [nb, nb + 1, 1 << 40, usize::MAX] {
             if let Some(e) = ev_get_block(c, b) {
                 st.oob_probes += 1;
-                put(tr, st, e);
+                g.push(e);
             }
         }
     }
+    st.oob_by_panic += g.iter().filter(|p| p["how"] == "panic").count();
+    put(tr, st, json!({"op":"probes","g":g}));
     true
+}
+
+fn bitlen(x: u128) -> u32 {
+    128 - x.leading_zeros()
+}
+/// the 64-bit two's complement pattern of an input number (what `as u64` gives)
+fn pat(x: i128) -> u64 {
+    x as u64
+}
+/// descriptors of an input sequence (of the INPUT only; they name the input class in the reset
+/// event so that known-finding triggers can be stated in TLA+): length, bit length of max-min,
+/// of the 64-bit-pattern range, of the largest value; sign
+fn describe(name: &str, xs: &[i128]) -> Value {
+    let (mn, mx) = (xs.iter().min().copied().unwrap_or(0), xs.iter().max().copied().unwrap_or(0));
+    let (umn, umx) = (xs.iter().map(|&x| pat(x)).min().unwrap_or(0), xs.iter().map(|&x| pat(x)).max().unwrap_or(0));
+    let mut d = json!({"n": xs.len(), "bw": bitlen((mx - mn) as u128), "ubw": bitlen((umx - umn) as u128),
+        "maxbits": bitlen(umx as u128), "neg": mn < 0});
+    let p: Vec<&str> = name.split(':').collect();
+    match p[0] {
+        "intvec" => {
+            let tb = match p[1] {
+                "u8" | "i8" => 1,
+                "u16" | "i16" => 2,
+                "u32" | "i32" => 4,
+                _ => 8,
+            };
+            d["tbytes"] = json!(tb);
+            d["urk"] = json!(uranks(xs));
+        }
+        "sorted" => {
+            let c = sorted_cfg(variant_of(name));
+            d["sw"] = json!(c.sample_width);
+            d["ow"] = json!(c.offset_width);
+            d["bl"] = json!(c.log2_block_units);
+        }
+        _ => {}
+    }
+    d
+}
+/// dense ranks of the 64-bit patterns of the input (order-preserving coordinate compression)
+fn uranks(xs: &[i128]) -> Vec<u32> {
+    let mut sorted: Vec<u64> = xs.iter().map(|&x| pat(x)).collect();
+    sorted.sort_unstable();
+    sorted.dedup();
+    xs.iter().map(|&x| sorted.binary_search(&pat(x)).unwrap_or(0) as u32).collect()
 }
 
 fn meta(name: &str, a: &Args, extra: Value) -> Value {
@@ -867,7 +936,9 @@ fn meta(name: &str, a: &Args, extra: Value) -> Value {
 
 /// one bulk case: build from xs, read everything back
 fn bulk_case(tr: &mut Tracer, st: &mut Stats, a: &Args, name: &str, dom: &str, profile: &str, xs: &[i128], r: &mut Rng, sets: bool) {
-    tr.reset("packedseq", name, meta(name, a, json!({"dom":dom,"profile":profile,"n":xs.len(),"mode":if sets {"bulk+set"} else {"bulk"}})));
+    let mut m = meta(name, a, json!({"dom":dom,"profile":profile,"mode":if sets {"bulk+set"} else {"bulk"}}));
+    m["d"] = describe(name, xs);
+    tr.reset("packedseq", name, m);
     let built = guard(|| build(name, xs));
     let mut c = match built {
         Err(m) => {
@@ -901,7 +972,7 @@ fn bulk_case(tr: &mut Tracer, st: &mut Stats, a: &Args, name: &str, dom: &str, p
                 }
                 Ok(None) => break,
                 Err(m) => {
-                    put(tr, st, json!({"op":"set","i":idx(i),"x":c.show(x),"ok":false,"how":"panic","msg":m}));
+                    put(tr, st, json!({"op":"set","i":idx(i),"x":c.show(x),"ok":false,"how":"panic","msgk":msgk(&m),"msg":m}));
                     dead = true;
                     break;
                 }
@@ -926,7 +997,7 @@ fn bulk_case(tr: &mut Tracer, st: &mut Stats, a: &Args, name: &str, dom: &str, p
             }
             Ok(None) => {}
             Err(m) => {
-                put(tr, st, json!({"op":"set","i":idx(n),"x":c.show(x),"ok":false,"how":"panic","msg":m}));
+                put(tr, st, json!({"op":"set","i":idx(n),"x":c.show(x),"ok":false,"how":"panic","msgk":msgk(&m),"msg":m}));
                 dead = true;
             }
         }
@@ -938,7 +1009,9 @@ fn bulk_case(tr: &mut Tracer, st: &mut Stats, a: &Args, name: &str, dom: &str, p
 
 /// incremental case: empty container, pushes in chunks, complete read-back at every checkpoint
 fn inc_case(tr: &mut Tracer, st: &mut Stats, a: &Args, name: &str, dom: &str, profile: &str, xs: &[i128], checkpoints: &[usize], r: &mut Rng) {
-    tr.reset("packedseq", name, meta(name, a, json!({"dom":dom,"profile":profile,"n":xs.len(),"mode":"inc"})));
+    let mut m = meta(name, a, json!({"dom":dom,"profile":profile,"mode":"inc"}));
+    m["d"] = describe(name, xs);
+    tr.reset("packedseq", name, m);
     let mut c = match guard(|| empty(name)) {
         Ok(Some(c)) => c,
         _ => return,
@@ -989,7 +1062,7 @@ fn inc_case(tr: &mut Tracer, st: &mut Stats, a: &Args, name: &str, dom: &str, pr
                         break;
                     }
                     st.oob_probes += 1;
-                    put(tr, st, ev_get(c.as_ref(), pushed, "get"));
+                    put(tr, st, json!({"op":"probes","g":[ev_get(c.as_ref(), pushed, "get")]}));
                 }
             }
         }
@@ -1054,9 +1127,13 @@ fn run_subject(tr: &mut Tracer, a: &Args, name: &str) -> Value {
     let mut st = Stats::new();
     let rng0 = Rng::new(a.seed).derive(name);
     let mut ncases = 0usize;
+    let runs0 = tr.runs;
     for (dom, lo, hi, profile, n) in cases(a, name) {
         let mut r = rng0.derive(&format!("{dom}/{profile}/{n}"));
         let mut xs = gen(profile, n, lo, hi, &mut r);
+        if tr.runs > runs0 {
+            tr.max_events = usize::MAX;
+        }
         ncases += 1;
         if incremental(name) {
             if n == 0 || (n > 1000 && !a.thorough() && profile != "small" && profile != "outliers" && profile != "runs") {
@@ -1092,9 +1169,10 @@ fn run_subject(tr: &mut Tracer, a: &Args, name: &str) -> Value {
 fn group(a: &Args) {
     let g = a.get("group").unwrap_or("").to_string();
     let mut tr = Tracer::new(&a.out, &format!("ps-{}", g.replace(':', "_")));
-    tr.max_events = 1500;
     let mut per_subject = serde_json::Map::new();
     for name in subjects().iter().filter(|s| group_of(s) == g && a.wants(s)) {
+        // one trace file per subject (rotation happens at the next reset)
+        tr.max_events = 0;
         per_subject.insert(name.clone(), run_subject(&mut tr, a, name));
         tr.flush();
     }
@@ -1137,7 +1215,9 @@ fn run_witnesses(a: &Args, tr: &mut Tracer) -> usize {
         }
         let xs: Vec<i128> = (0..100).map(|x| x * 3).collect();
         let out = run_child(&exe_args(which), 60, 0, true);
-        tr.reset("packedseq", name, meta(name, a, json!({"mode":"witness","which":which})));
+        let mut m = meta(name, a, json!({"mode":"witness","which":which}));
+        m["d"] = describe(name, &xs);
+        tr.reset("packedseq", name, m);
         tr.ev(json!({"op":"build","xs":xs.iter().map(|x| x.to_string()).collect::<Vec<_>>(),"ok":true}));
         let i = idx(usize::MAX);
         let e = match out {
@@ -1291,7 +1371,7 @@ fn replay(a: &Args) {
                         "set" => match guard(|| c.set(i, x)) {
                             Ok(Some(())) => json!({"op":"set","i":idx(i),"x":c.show(x),"ok":true}),
                             Ok(None) => json!(null),
-                            Err(m) => json!({"op":"set","i":idx(i),"x":c.show(x),"ok":false,"how":"panic","msg":m}),
+                            Err(m) => json!({"op":"set","i":idx(i),"x":c.show(x),"ok":false,"how":"panic","msgk":msgk(&m),"msg":m}),
                         },
                         _ => json!(null),
                     };
@@ -1352,17 +1432,15 @@ fn replay(a: &Args) {
                         }
                     }
                     let n = exp.len();
-                    let oob = ev_get(c.as_ref(), n, "get");
-                    if oob["how"] == "value" {
+                    let mut g = vec![ev_get(c.as_ref(), n, "get")];
+                    g.extend(ev_get2(c.as_ref(), n.saturating_sub(1)));
+                    if n > 0 {
+                        g.push(ev_get(c.as_ref(), n - 1, "get"));
+                    }
+                    if g.iter().any(|p| p["how"] == "value" && p["r"][0].as_str() != exp.last().map(|s| s.as_str())) {
                         differs = true;
                     }
-                    evs.push(oob);
-                    if let Some(e2) = ev_get2(c.as_ref(), n.saturating_sub(1)) {
-                        if e2["how"] == "value" {
-                            differs = true;
-                        }
-                        evs.push(e2);
-                    }
+                    evs.push(json!({"op":"probes","g":g}));
                 }
                 if dead {
                     std::mem::forget(c);
@@ -1377,7 +1455,9 @@ fn replay(a: &Args) {
                     if differs {
                         written += 1;
                     }
-                    tr.reset("packedseq", name, meta(name, a, json!({"mode":"b2","conc":cname,"behaviour":bi,"differs":differs})));
+                    let mut m = meta(name, a, json!({"mode":"b2","conc":cname,"behaviour":bi,"differs":differs}));
+                    m["d"] = describe(name, &conc);
+                    tr.reset("packedseq", name, m);
                     for e in evs {
                         put(&mut tr, &mut st, e);
                     }
